@@ -159,7 +159,7 @@ def vector_src(ns, nl, npar, ni2c, other, same_name=False, lcd_order="parallel-f
     if other:
         lines += ["led = Led(13)", "btn = Button(2)"]
     for k in range(ns):
-        lines.append(f"sa{k} = Servo({3 + k})")
+        lines.append(f"sa{k} = Servo({3 + k})" if not (lcd_order == "servo-default-pin" and k == 0) else "sa0 = Servo()")
     par = [(f"lp{k} = LCD(rs=12, en=11, d4=5, d5=4, d6=3, d7={2 + k})" if lcd_order != "with-rw-pin" else f"lp{k} = LCD(rs=12, en=11, d4=5, d5=4, d6=3, d7={2 + k}, rw=10)")
            for k in range(npar)]
     i2c = [f"li{k} = LCD(i2c_addr={39 + k})" for k in range(ni2c)]
@@ -177,7 +177,7 @@ def vector_src(ns, nl, npar, ni2c, other, same_name=False, lcd_order="parallel-f
     if lcd_order == "comment-before-loop-declarations":
         lines += ["# a comment line at column 0 inside the loop body", "    # and an indented one"]
     for k in range(nl):
-        lines.append(f"    sb{k} = Servo({6 + k})")
+        lines.append(f"    sb{k} = Servo({6 + k})" if not (lcd_order == "servo-default-pin" and k == 0 and ns == 0) else ("    sb0 = Servo( )" if ni2c else "    sb0 = Servo()"))
     if other:
         lines.append("    led.toggle()")
     for k in range(ns):
@@ -226,6 +226,7 @@ def extra_obligations(mods, tier, seed):
     space = [(ns, nl, npar, ni2c, other, "parallel-first") for ns, nl, npar, ni2c, other in itertools.product(range(3), range(3), range(3), range(3), (False, True))]
     # declaration order of the two LCD kinds (and of displays relative to servos) must not matter
     # the spelling of the main-loop header and comment lines before the declarations at the top of the loop body must not matter either
+    space += [(ns, nl, npar, ni2c, other, "servo-default-pin") for ns, nl, npar, ni2c, other in itertools.product((0, 1), (0, 1), (0, 1), (0, 1), (False, True)) if ns + nl]
     space += [(ns, nl, npar, ni2c, other, order) for order in ("header-comment", "header-paren", "header-blank", "comment-before-loop-declarations")
               for ns, nl, npar, ni2c, other in itertools.product((0, 1), (1, 2), (0, 1), (0, 1), (False, True))]
     space += [(ns, nl, npar, ni2c, other, order) for order in ("i2c-first", "interleaved", "lcd-before-servo", "with-rw-pin")
